@@ -15,6 +15,7 @@ import GemseoVerif.Analysis.C10Aggregation
 import GemseoVerif.Lemmas.C10Ordered
 import GemseoVerif.Lemmas.C10TreeR
 import GemseoVerif.Lemmas.C10Session
+import GemseoVerif.Lemmas.C10Store
 
 namespace GV.C10
 
@@ -671,6 +672,82 @@ example :
   · simp [e, subst, hobj, FnObj.leaf, Safe]
 
 end Sessions
+
+/-! ### Storage: returned arrays are never rewritten, one object may be used several times
+
+`SExpr.run` (Model/C10.lean) threads the storage through the value path with the allocation
+points of the code: `FunctionRestriction.__extend_subvect` builds a new vector at every call,
+`A @ x`, the four operators, `-f(x)` and `concatenate` build new arrays, a user function may return
+its input array or a view of it (`SExpr.view`). `Hist` is what a caller does with one tree: it
+rewrites its own buffer (cell 0) and keeps every array a call returns. -/
+
+section Storage
+
+variable {α : Type} [Add α] [Mul α] [Sub α] [Neg α] [Div α] [OfNat α 0] [OfNat α 1]
+
+/-- An evaluation never rewrites storage that existed before it: every array the caller (or an
+    enclosing node) holds reads the same numbers afterwards. All trees, all stores, all arrays. -/
+theorem evaluation_never_rewrites_existing_storage (e : SExpr α) (h : Store α) (x a : Arr)
+    (ha : a.cell < h.length) : (e.run h x).1.read a = h.read a :=
+  e.run_preserves h x a ha
+
+/-- The array an evaluation returns shows the value of the pure semantics at the content of the
+    argument - whatever the leaves return (new arrays or views of their input), however often a
+    sub-tree occurs. -/
+theorem stored_evaluation_returns_the_value (e : SExpr α) (h : Store α) (x : Arr)
+    (hx : x.cell < h.length) : (e.run h x).1.read (e.run h x).2 = e.sem (h.read x) :=
+  e.run_value h x hx
+
+/-- One function object `S` used twice in a tree at different arguments, `S(Ax) op S(Bx)`:
+    each use is the value of `S` at its own argument (for every `S`, in particular a restriction of
+    a function returning a view of its input). -/
+theorem one_object_used_twice_each_at_its_own_argument (op : BinOp) (S : SExpr α)
+    (A B : List (List α)) (h : Store α) (x : Arr) (hx : x.cell < h.length) :
+    ((SExpr.bin op (.lincomp A S) (.lincomp B S)).run h x).1.read
+        ((SExpr.bin op (.lincomp A S) (.lincomp B S)).run h x).2
+      = binVal op
+          (S.sem ((List.range A.length).map (matVec (h.read x).length (mat A) (vec (h.read x)))))
+          (S.sem ((List.range B.length).map (matVec (h.read x).length (mat B) (vec (h.read x))))) := by
+  rw [SExpr.run_value _ h x hx]
+  rfl
+
+/-- **Histories.** After every history of buffer updates and calls, every array returned by an
+    earlier call that is not (a view of) the caller's own buffer still shows the numbers it showed
+    when it was returned. -/
+theorem kept_results_keep_their_values (s : Hist α) (hs : s.Good) (ops : List (HOp α)) :
+    ∀ p ∈ (s.after ops).kept, p.1.cell ≠ 0 → (s.after ops).store.read p.1 = p.2 :=
+  fun p hp hc => ((Hist.after_good ops s hs).2 p hp hc).2
+
+omit [Add α] [Mul α] [Sub α] [Neg α] [Div α] [OfNat α 1] in
+/-- A caller that starts with its buffer and nothing kept is in a good state. -/
+theorem fresh_history_good (p : List α) : (Hist.mk [p] ([] : List (Arr × List α))).Good :=
+  ⟨by simp, by intro q hq; simp at hq⟩
+
+/-- What a call returns and records: the value of the tree at the current content of the buffer. -/
+theorem call_returns_value_at_buffer_content (s : Hist α) (hs : s.Good) (e : SExpr α) :
+    (s.step (.call e)).kept = s.kept ++
+      [((e.run s.store s.store.buffer).2, e.sem (s.store.read s.store.buffer))] := by
+  simp only [Hist.step]
+  rw [SExpr.run_value _ _ _ hs.1]
+
+/-- Non-vacuity: a restriction (3 inputs, input 1 frozen at 7) of `x ↦ x[::-1]` evaluated at two
+    contents of the buffer, both results kept: they show `[2,7,1]` and `[5,7,-3]` at the end, and
+    neither lives in the caller's buffer. `r(x) - r(Bx)` with ONE restriction: `[1,0,1] `. -/
+example :
+    let r : SExpr Int := .restrict 3 [1] [7] (.view [2, 1, 0])
+    let s := (Hist.mk [[1, 2]] []).after [.call r, .write [-3, 5], .call r]
+    s.kept.map (fun p => (s.store.read p.1, p.2, decide (p.1.cell ≠ 0)))
+      = [([2, 7, 1], [2, 7, 1], true), ([5, 7, -3], [5, 7, -3], true)] := by
+  decide
+
+example :
+    let r : SExpr Int := .restrict 3 [1] [7] (.view [0, 1, 2])
+    let e : SExpr Int := .bin .sub (.lincomp [[1, 0], [0, 1]] r) (.lincomp [[0, 1], [1, 0]] r)
+    (e.run [[1, 2]] ⟨0, [some 0, some 1]⟩).1.read (e.run [[1, 2]] ⟨0, [some 0, some 1]⟩).2 = [-1, 0, 1] := by
+  decide
+
+end Storage
+
 
 /-! ### Smooth maximum aggregations bound the maximum from the documented side (ℝ) -/
 
